@@ -89,6 +89,9 @@ Bases(i) ==
     [] Cluster = "A3" ->      \* scheme forms
          {B0(Base(SchemeCat[i], UserCat[u], HostCat[h], PortAt(SchemeCat[i].dp, p), tP, <<>>, "utf-8"), TRUE) :
              u \in {1, 3}, h \in HostsA3, p \in {1, 2, 3, 9}}
+         \* ... and a colon further on in the text (without a scheme: is what precedes it taken for one?)
+         \cup {B0(Base(SchemeCat[i], NoUser, HostCat[h], NoPort(SchemeCat[i].dp), S("/Pub/File:1"), qf, "utf-8"), TRUE) :
+                 h \in HostsA3, qf \in {<<>>, S("?Q=A&t=12:30")}}
     [] Cluster = "B" ->       \* paths of <= 3 catalogue segments, with / without trailing slash
          (IF i = 1 THEN {B0(Base(Http, NoUser, HostH, NoPort(Http.dp), pa, <<>>, "utf-8"), TRUE) : pa \in {<<>>, <<SLASH>>}}
           ELSE LET s1 == i - 1
